@@ -854,6 +854,11 @@ class Run:
         else:
             if kind == "for":
                 self.assume(fr.vars[idx_name].t == z3.Length(seq.t))
+                # the invariant at the exit index, stated over len(seq) itself (the same fact, but later clauses that speak
+                # about len(seq) then match it without equality reasoning over the index variable)
+                fr.vars[idx_name] = Val(TInt, z3.Length(seq.t))
+                for inv in spec.inv:
+                    self.assume(self.spec_bool(inv, fr))
             else:
                 c = self.truth(self.ev(st.test, fr))
                 if self.branch(c):
